@@ -54,8 +54,11 @@ output(std::ostream &out, int indent_level, CPPScope *scope, bool complete) cons
       out << " = ";
       _default_type->output(out, indent_level, scope, false);
     }
-  } else {
+  } else if (_ident != nullptr) {
     _ident->output(out, scope);
+  } else {
+    // An unnamed parameter, as in template<class>.
+    out << "class";
   }
 }
 
